@@ -10,6 +10,7 @@ import (
 	"mime/multipart"
 	"net/textproto"
 	"os"
+	"sort"
 	"strconv"
 	"strings"
 	"testing/iotest"
@@ -387,6 +388,33 @@ func randParts(r *vh.Rand) []string {
 	return out
 }
 
+var mtFrags = []string{"form-data", "attachment", "Form-Data", "text/plain", "multipart/form-data", " form-data ", "a/b/c", "", "x y", "application/x-directory", "text/"}
+var keyFrags = []string{"name", "filename", "NAME", "a", "b-c", "x.y", "k1", "charset"}
+var valFrags = []string{"\"file\"", "\"file?mode=0644&mtime=1\"", "tok", "\"a b\"", "\"a\\\"b\"", "\"a\\b\"", "\"unterminated", "", "\"\"", "a%2Fb", "\"x;y=z\"",
+	"\"tab\there\"", "\"cr\rlf\"", "v/w", "\"a\\\\b\"", "UPPER", "\"\xc3\xbc\""}
+
+// header values inside the modelled fragment: no '*' in parameter names, no duplicate names, ASCII white space
+func randHeaderValue(r *vh.Rand) string {
+	var sb strings.Builder
+	sb.WriteString(vh.Pick(r, mtFrags))
+	used := map[string]bool{}
+	for i, n := 0, r.Intn(4); i < n; i++ {
+		k := vh.Pick(r, keyFrags)
+		if used[strings.ToLower(k)] {
+			continue
+		}
+		used[strings.ToLower(k)] = true
+		sb.WriteString(vh.Pick(r, []string{"; ", ";", " ; ", ";\t", "; "}))
+		sb.WriteString(k)
+		sb.WriteString(vh.Pick(r, []string{"=", "=", " = ", "= "}))
+		sb.WriteString(vh.Pick(r, valFrags))
+	}
+	if r.Chance(1, 6) {
+		sb.WriteString(vh.Pick(r, []string{";", " ; ", ";;", "; x"}))
+	}
+	return sb.String()
+}
+
 func gen(r *vh.Rand, tier string, n int, emit func(vh.Case)) {
 	maxDepth := 3
 	if tier == "thorough" {
@@ -397,6 +425,25 @@ func gen(r *vh.Rand, tier string, n int, emit func(vh.Case)) {
 		if r.Chance(1, 5) {
 			for j, m := 0, r.Range(1, 3); j < m; j++ {
 				c.Ops = append(c.Ops, "parts "+strings.Join(randParts(r), " "))
+			}
+			emit(c)
+			continue
+		}
+		if r.Chance(1, 6) {
+			// the textual header layer
+			for j, m := 0, r.Range(1, 4); j < m; j++ {
+				if r.Bool() {
+					k := &node{}
+					randMeta(r, k)
+					form := "1"
+					if r.Chance(1, 4) {
+						form = "0"
+					}
+					nm := vh.Pick(r, nameFrags)
+					c.Ops = append(c.Ops, "hdr "+form+" "+strconv.FormatUint(uint64(k.mode), 10)+" "+k.mtimeTok()+" "+h(nm))
+				} else {
+					c.Ops = append(c.Ops, "mparse "+h(randHeaderValue(r)))
+				}
 			}
 			emit(c)
 			continue
@@ -465,6 +512,56 @@ func exec(c vh.Case, o *vh.Out) {
 	for _, line := range c.Ops {
 		f := strings.Fields(line)
 		switch f[0] {
+		case "hdr":
+			// the real writer's Content-Disposition for one file entry, and what the real mime parser reads from it
+			k := &node{kind: 'f', name: string(vh.UnHex(f[4]))}
+			m, _ := strconv.ParseUint(f[2], 10, 32)
+			k.mode = uint32(m)
+			parseMt(k, f[3])
+			mfr := files.NewMultiFileReader(build([]*node{k}, nil), f[1] == "1", false)
+			mr := multipart.NewReader(mfr, mfr.Boundary())
+			p, err := mr.NextRawPart()
+			if err != nil {
+				o.Emit("error")
+				continue
+			}
+			raw := p.Header.Get("Content-Disposition")
+			disp, params, perr := mime.ParseMediaType(raw)
+			o.Kind("hdr")
+			if perr != nil {
+				o.Emit("%s unparsed", h(raw))
+				continue
+			}
+			isForm := 0
+			if disp == "form-data" {
+				isForm = 1
+			}
+			if p.FormName() != params["name"] && isForm == 1 {
+				o.Fail("formname", "%q vs %q", p.FormName(), params["name"])
+			}
+			nm := ""
+			if isForm == 1 {
+				nm = params["name"]
+			}
+			o.Emit("%s %d %s %s", h(raw), isForm, h(nm), h(params["filename"]))
+		case "mparse":
+			mt, params, err := mime.ParseMediaType(string(vh.UnHex(f[1])))
+			o.Kind("mparse")
+			if err != nil {
+				o.Kind("mparse-err")
+				o.Emit("none")
+				continue
+			}
+			var kv []string
+			for k, v := range params {
+				kv = append(kv, h(k)+":"+h(v))
+			}
+			sort.Strings(kv)
+			ps := "="
+			if len(kv) > 0 {
+				ps = strings.Join(kv, ",")
+			}
+			o.Emit("ok %s %s", h(mt), ps)
 		case "ser":
 			form := f[1] == "1"
 			kids, _ := parseTree(f[2:])
